@@ -47,6 +47,7 @@ func (g *Gen) register() {
 	g.add("register_resolver", g.genRegisterResolver)
 	g.add("resolver_combo", g.genResolverCombo)
 	g.add("batch_combo", g.genBatchCombo)
+	g.add("market_combo", g.genMarketCombo)
 }
 
 // ---------- basket ----------
@@ -561,6 +562,59 @@ func (g *Gen) genSell() *eng.Tx {
 	return tx(m)
 }
 
+// genMarketCombo: the first use of a (credit type, ask denom) pair creates its market. Governance
+// allows two fresh denoms; a Sell lists two orders in the first one (creating the market, then finding
+// it again) and a third, failing entry — the transaction is reverted and the market id rolled back.
+// Scripted follow-up: a Sell in the SECOND fresh denom (its market gets the rolled-back id), then
+// a Sell and an update in the first denom again, then a purchase attempt.
+func (g *Gen) genMarketCombo() *eng.Tx {
+	h := g.holding()
+	if h == nil || h.T == nil || h.T.Cmp(big.NewRat(10, 1)) < 0 || len(g.V.Markets) > 60 {
+		return nil
+	}
+	b := g.V.Batches[h.Row.BatchKey]
+	if b == nil {
+		return nil
+	}
+	seller := obs.Addr(h.Row.Address)
+	g.refSeq++
+	d1, d2 := fmt.Sprintf("ucombo%da", g.refSeq), fmt.Sprintf("ucombo%db", g.refSeq)
+	one := func(d string, q string, amt int64) *markettypes.MsgSell_Order {
+		c := sdk.NewInt64Coin(d, amt)
+		return &markettypes.MsgSell_Order{BatchDenom: b.Denom, Quantity: q, AskPrice: &c, DisableAutoRetire: true}
+	}
+	over := trimDec(ratToDec(new(big.Rat).Add(h.T, big.NewRat(1, 1)), 6)) // more than the seller holds: fails
+	g.script = append(g.script,
+		func() *eng.Tx {
+			return &eng.Tx{Msgs: []sdk.Msg{&markettypes.MsgAddAllowedDenom{Authority: g.Gov, BankDenom: d2, DisplayDenom: d2, Exponent: 6}}, Tag: "market_combo/allow"}
+		},
+		func() *eng.Tx {
+			return &eng.Tx{Msgs: []sdk.Msg{&markettypes.MsgSell{Seller: seller, Orders: []*markettypes.MsgSell_Order{one(d1, "1", 5), one(d1, "1.5", 6), one(d1, over, 7)}}}, Tag: "market_combo/reverted-sell"}
+		},
+		func() *eng.Tx {
+			return &eng.Tx{Msgs: []sdk.Msg{&markettypes.MsgSell{Seller: seller, Orders: []*markettypes.MsgSell_Order{one(d2, "1", 8)}}}, Tag: "market_combo/other-denom"}
+		},
+		func() *eng.Tx {
+			return &eng.Tx{Msgs: []sdk.Msg{&markettypes.MsgSell{Seller: seller, Orders: []*markettypes.MsgSell_Order{one(d1, "2", 9), one(d1, "0.5", 10)}}}, Tag: "market_combo/first-denom-again"}
+		},
+		func() *eng.Tx {
+			// buy the newest order of the seller priced in d1 (the buyer is funded by nobody: the
+			// purchase fails for lack of funds on a correct chain — what matters is the binding)
+			var last *marketapi.SellOrder
+			for _, o := range g.V.OrderList {
+				if obs.Addr(o.Seller) == seller && (last == nil || o.Id > last.Id) {
+					last = o
+				}
+			}
+			if last == nil {
+				return nil
+			}
+			c := sdk.NewInt64Coin(d1, 10)
+			return &eng.Tx{Msgs: []sdk.Msg{&markettypes.MsgBuyDirect{Buyer: g.otherActor(seller), Orders: []*markettypes.MsgBuyDirect_Order{{SellOrderId: last.Id, Quantity: "0.5", BidPrice: &c, DisableAutoRetire: true}}}}, Tag: "market_combo/buy"}
+		})
+	return &eng.Tx{Msgs: []sdk.Msg{&markettypes.MsgAddAllowedDenom{Authority: g.Gov, BankDenom: d1, DisplayDenom: d1, Exponent: 6}}, Tag: "market_combo/allow"}
+}
+
 func (g *Gen) order() *marketapi.SellOrder {
 	o, _ := pick(g, g.V.OrderList)
 	return o
@@ -698,6 +752,8 @@ func (g *Gen) genBuy() *eng.Tx {
 	m := &markettypes.MsgBuyDirect{Buyer: buyer}
 	prevDenom := ""
 	crossMarket := false
+	var prevOrderID uint64
+	prevQty := ""
 	n := 1
 	if g.chance(0.3) {
 		n = 2 + g.R.Intn(2)
@@ -734,6 +790,10 @@ func (g *Gen) genBuy() *eng.Tx {
 		default:
 			qty = g.amountUpTo(q)
 		}
+		if prevOrderID == o.Id && prevQty != "" && g.chance(0.5) {
+			qty = prevQty // the same order again for the same quantity (e.g. twice the full order)
+		}
+		prevOrderID, prevQty = o.Id, qty
 		if ask.Cmp(big.NewInt(20)) <= 0 && g.chance(0.35) {
 			// unit-scale purchase: a subtotal of one to two base units (every settlement amount is then
 			// next to the truncation boundaries 0/1/2)
